@@ -86,7 +86,7 @@ func wrapOf(shape string, minLen int, parser string) wrapFact {
 
 func extract(repo, leanDir string) {
 	s := &shapes{map[string]*gofacts.File{}, map[string]*gofacts.File{}, map[string]*gofacts.File{}}
-	for _, n := range anchored {
+	for _, n := range append(append([]string{}, anchored...), "interface", "map") {
 		s.repo[n] = gofacts.MustLoad(repo, "tex/"+n+".go")
 		s.legacy[n] = loadShape("legacy", n)
 		s.repaired[n] = loadShape("repaired", n)
@@ -128,6 +128,17 @@ func extract(repo, leanDir string) {
 		stampShape = "strict"
 	}
 
+	// tex.ToString and the two generic paths that call it (not anchored, but they print wrapper values)
+	toStr := "unknown"
+	if known(sh("interface", "", "tryNum2Int")) && known(sh("interface", "", "ToStringList")) && known(sh("map", "", "MapVal2String")) {
+		switch sh("interface", "", "ToString") {
+		case "legacy":
+			toStr = "viaInt"
+		case "repaired":
+			toStr = "exact"
+		}
+	}
+
 	all := func(fs ...string) bool {
 		for _, f := range fs {
 			if !known(f) {
@@ -157,17 +168,17 @@ set_option linter.unusedVariables false
 namespace Nv.Gen.C20
 def cfg : Nv.C20.Cfg :=
   { i64 := %s, u64 := %s, byte := %s, unixTime := %s, nanoTime := %s, stamp := %s, dur := %s,
-    byteConv := .%s, scanInt := .%s, scanStamp := .%s }
+    byteConv := .%s, scanInt := .%s, scanStamp := .%s, toStr := .%s }
 def facts : Nv.C20.Facts := ⟨%s, %s, %s, %s, %s, %s, %s, %s, %s, %s⟩
 end Nv.Gen.C20
-`, wI.lean(), wU.lean(), wB.lean(), wT.lean(), wN.lean(), wS.lean(), wD.lean(), conv, scanShape, stampShape,
+`, wI.lean(), wU.lean(), wB.lean(), wT.lean(), wN.lean(), wS.lean(), wD.lean(), conv, scanShape, stampShape, toStr,
 		lb(marshalQuotedDecimal), lb(durMarshal), lb(byteMarshal), lb(byteSplit), lb(hexBases), lb(base64Raw), lb(sqlScanValue),
 		lb(durToml), lb(durGetter), lb(byteToString))
 	if err := gofacts.WriteIfChanged(filepath.Join(leanDir, "Nv/Gen/C20.lean"), out); err != nil {
 		fmt.Fprintln(os.Stderr, err)
 		os.Exit(2)
 	}
-	fmt.Printf("extract C20 (whole-body shapes): scanInt=%s scanStamp=%s byteConv=%s facts=%v,%v,%v,%v,%v,%v,%v,%v,%v,%v i64=%v u64=%v byte=%v unixTime=%v nanoTime=%v stamp=%v dur=%v\n",
-		scanShape, stampShape, conv, marshalQuotedDecimal, durMarshal, byteMarshal, byteSplit, hexBases, base64Raw, sqlScanValue, durToml, durGetter, byteToString,
+	fmt.Printf("extract C20 (whole-body shapes): toStr=%s scanInt=%s scanStamp=%s byteConv=%s facts=%v,%v,%v,%v,%v,%v,%v,%v,%v,%v i64=%v u64=%v byte=%v unixTime=%v nanoTime=%v stamp=%v dur=%v\n",
+		toStr, scanShape, stampShape, conv, marshalQuotedDecimal, durMarshal, byteMarshal, byteSplit, hexBases, base64Raw, sqlScanValue, durToml, durGetter, byteToString,
 		wI, wU, wB, wT, wN, wS, wD)
 }
